@@ -371,6 +371,20 @@ func init() {
 					}
 				}
 			}
+			// large documents: the tail of a document of 1.2 / 5 (thorough: 20) MiB is read like its head
+			sizes := []uint{1200 << 10, 5 << 20}
+			if env.Thorough() {
+				sizes = append(sizes, 20<<20)
+			}
+			for _, sz := range sizes {
+				for _, filler := range []string{"depends", "description", "contents", "comment", "deb-fields"} {
+					for _, tail := range []string{"unknown", "unknown-nested", "ref", "plain", "none"} {
+						if !yield(C16Case{Part: "large-doc", Kind: filler, Inject: tail, Present: sz}) {
+							return
+						}
+					}
+				}
+			}
 		},
 		Check: checkC16,
 	})
@@ -416,6 +430,9 @@ func checkC16(env *engine.Env, ci any) engine.Outcome {
 		out.Violations = append(out.Violations, engine.Violation{Sig: sig, Detail: fmt.Sprintf(format, a...)})
 	}
 	switch c.Part {
+	case "large-doc":
+		checkC16Large(env, c, &out, viol)
+		return out
 	case "unknown-key":
 		// a valid document that reaches the level, plus the undefined key there
 		doc := c16Base()
@@ -908,6 +925,157 @@ func checkC16Multi(env *engine.Env, c C16Case, documented map[string]bool, out *
 				cls = "documented-field"
 			}
 			viol("expand:"+cls+":"+c.Part+":"+key, "%s set to %q together with %d other fields (mapping %v): read back as %q, expected %q", key, s.value, len(sets)-1, envm, got, want)
+		}
+	}
+}
+
+// c16LargeDoc writes a document whose filler block of about size bytes sits between the head and the tail; it returns
+// the text and the number of filler items.
+func c16LargeDoc(filler, tail string, size int) (string, int) {
+	var b strings.Builder
+	b.Grow(size + 4096)
+	b.WriteString("name: pkg\narch: amd64\nversion: 1.2.3\nversion_schema: none\n")
+	n := 0
+	switch filler {
+	case "depends":
+		b.WriteString("depends:\n")
+		for b.Len() < size {
+			fmt.Fprintf(&b, "- libfiller%07d\n", n)
+			n++
+		}
+	case "description":
+		b.WriteString("description: |\n")
+		for b.Len() < size {
+			fmt.Fprintf(&b, "  line %07d of a long description\n", n)
+			n++
+		}
+	case "contents":
+		b.WriteString("contents:\n")
+		for b.Len() < size {
+			fmt.Fprintf(&b, "- dst: /srv/d/%07d\n  type: dir\n", n)
+			n++
+		}
+	case "comment":
+		for b.Len() < size {
+			fmt.Fprintf(&b, "# comment line %07d\n", n)
+			n++
+		}
+	case "deb-fields":
+		b.WriteString("deb:\n  fields:\n")
+		for b.Len() < size {
+			fmt.Fprintf(&b, "    X-Filler-%07d: v%d\n", n, n)
+			n++
+		}
+	}
+	switch tail {
+	case "unknown":
+		b.WriteString("zz_undefined_key: true\n")
+	case "unknown-nested":
+		b.WriteString("rpm:\n  zz_undefined_key: true\n")
+	case "ref":
+		b.WriteString("homepage: https://${C16_TAIL}/x\nvendor: $C16_TAIL\n")
+	case "plain":
+		b.WriteString("homepage: https://example.org/tail\nvendor: tail\n")
+	}
+	return b.String(), n
+}
+
+// checkC16Large: a document is read to its end whatever its size - an undefined key behind megabytes of valid
+// settings is rejected, a reference there is expanded, and every filler item arrives.
+func checkC16Large(env *engine.Env, c C16Case, out *engine.Outcome, viol func(string, string, ...any)) {
+	text, n := c16LargeDoc(c.Kind, c.Inject, int(c.Present))
+	mapping := func(k string) string {
+		if k == "C16_TAIL" {
+			return "tail.example"
+		}
+		return ""
+	}
+	cls := fmt.Sprintf("%s:%s:%dKiB", c.Kind, c.Inject, c.Present>>10)
+	results := map[string]struct {
+		cfg nfpm.Config
+		err error
+	}{}
+	cfg, err := parseYAML(text, mapping)
+	results["ParseWithEnvMapping"] = struct {
+		cfg nfpm.Config
+		err error
+	}{cfg, err}
+	out.Transitions++
+	// through a file as well (ParseFileWithEnvMapping)
+	p := filepath.Join(env.Scratch, fmt.Sprintf("c16-large-%d.yaml", os.Getpid()))
+	if werr := os.WriteFile(p, []byte(text), 0o644); werr != nil {
+		out.HarnessError = werr.Error()
+		return
+	}
+	defer os.Remove(p)
+	fcfg, ferr := func() (cfg nfpm.Config, err error) {
+		defer func() {
+			if r := recover(); r != nil {
+				err = fmt.Errorf("PANIC in nfpm.ParseFileWithEnvMapping: %v", r)
+			}
+		}()
+		return nfpm.ParseFileWithEnvMapping(p, mapping)
+	}()
+	results["ParseFileWithEnvMapping"] = struct {
+		cfg nfpm.Config
+		err error
+	}{fcfg, ferr}
+	out.Transitions++
+	out.Key = fmt.Sprintf("large:%s:%v:%v", cls, err != nil, ferr != nil)
+	for _, name := range []string{"ParseWithEnvMapping", "ParseFileWithEnvMapping"} {
+		r := results[name]
+		switch c.Inject {
+		case "unknown", "unknown-nested":
+			if r.err == nil {
+				viol("parse:unknown-key-accepted:large-doc:"+c.Inject, "%s accepted a document of %d bytes (%s filler, %d items) whose last line holds an undefined key", name, len(text), c.Kind, n)
+			}
+			continue
+		}
+		if r.err != nil {
+			viol("parse:large-doc-rejected:"+c.Kind, "%s rejected a valid document of %d bytes (%s filler, %d items): %v", name, len(text), c.Kind, n, r.err)
+			continue
+		}
+		wantHome, wantVendor := "", ""
+		switch c.Inject {
+		case "ref":
+			wantHome, wantVendor = "https://tail.example/x", "tail.example"
+		case "plain":
+			wantHome, wantVendor = "https://example.org/tail", "tail"
+		}
+		if r.cfg.Homepage != wantHome || r.cfg.Vendor != wantVendor {
+			viol("expand:large-doc-tail:"+c.Inject, "%s: after %d bytes of %s filler the tail settings read homepage=%q vendor=%q, want %q %q", name, len(text), c.Kind, r.cfg.Homepage, r.cfg.Vendor, wantHome, wantVendor)
+		}
+		got, last, wantLast := -1, "", ""
+		switch c.Kind {
+		case "depends":
+			got = len(r.cfg.Depends)
+			wantLast = fmt.Sprintf("libfiller%07d", n-1)
+			if got > 0 {
+				last = r.cfg.Depends[got-1]
+			}
+		case "contents":
+			got = len(r.cfg.Contents)
+			wantLast = fmt.Sprintf("/srv/d/%07d", n-1)
+			if got > 0 {
+				last = r.cfg.Contents[got-1].Destination
+			}
+		case "deb-fields":
+			got = len(r.cfg.Deb.Fields)
+			wantLast = fmt.Sprintf("v%d", n-1)
+			last = r.cfg.Deb.Fields[fmt.Sprintf("X-Filler-%07d", n-1)]
+		case "description":
+			got = strings.Count(r.cfg.Description, "\n")
+			if !strings.HasSuffix(r.cfg.Description, "\n") {
+				got++
+			}
+			wantLast = fmt.Sprintf("line %07d of a long description", n-1)
+			ls := strings.Split(strings.TrimRight(r.cfg.Description, "\n"), "\n")
+			last = ls[len(ls)-1]
+		default:
+			continue
+		}
+		if got != n || last != wantLast {
+			viol("parse:large-doc-truncated:"+c.Kind, "%s: of %d %s items %d arrived, the last one %q (want %q)", name, n, c.Kind, got, last, wantLast)
 		}
 	}
 }
